@@ -1,16 +1,27 @@
 ---------------------------- MODULE ConfigTrace ----------------------------
 (* Trace specification for C18: every line of the trace file is one observation of the real      *)
-(* options code: {tid, case, real}.  TLC evaluates the documented precedence (RefLookup) and the  *)
-(* implementation-shaped model (ImplLookup) of Config.tla on the recorded case and judges the     *)
-(* recorded real result.                                                                          *)
+(* options code: {tid, case, real, cmdinsts}.  `real` is the effective value the real code        *)
+(* produced for the case (through the route the case names: Options.from_option_list,            *)
+(* prepare_constructor_kwargs, NameCheckVisitor.main() on a real argv, or a `python -m pyanalyze  *)
+(* ... --display-options` subprocess); `cmdinsts` are the values of the command-line instances of *)
+(* the observed option found on the real Options object.  TLC evaluates the documented precedence *)
+(* (RefLookup) and the implementation-shaped model (ImplLookup, ImplCmdValues) of Config.tla on   *)
+(* the recorded case and judges the recorded real result.                                         *)
 EXTENDS Config, Json, IOUtils
 
 Obs == ndJsonDeserialize(IOEnv.TRACE_FILE)
 VARIABLE l
 
+\* which sentence of the property a wrong result breaks
+Clause(c) ==
+    IF c.bad # "none" THEN "viol:MalformedRejected"
+    ELSE IF RefCmdSays(c).said /\ ~IsConcat(c.kind) THEN "viol:CommandLineValueWins"
+    ELSE "viol:LayeringFollowsDocs"
+
 Verdict(o) ==
-    IF o.real # RefLookup(o.case) THEN "viol:LayeringFollowsDocs"
+    IF o.real # RefLookup(o.case) THEN Clause(o.case)
     ELSE IF o.real # ImplLookup(o.case) THEN "drift:ImplLookup"
+    ELSE IF o.case.bad = "none" /\ o.cmdinsts # ImplCmdValues(o.case) THEN "drift:ImplCmdInsts"
     ELSE "ok"
 
 TInit == l = 1 /\ case = Blank /\ stage = "trace" /\ n = 0
